@@ -99,41 +99,34 @@ def get_next_entry(file, entrymarker="\xFE\xFF\xFE\xFF\xFE\xFF\xFE\xFF\xFE\xFF",
     end = None
     startcursor = None # startcursor and endcursor are the absolute position of the starting/ending entrymarkers inside the database file
     endcursor = None
-    buf = 1
     # Sanity check: cannot screen the file's content if the window is of the same size as the pattern to match (the marker)
     if blocksize <= len(entrymarker): blocksize = len(entrymarker) + 1
+    bufcursor = file.tell() # absolute position of the current buffer inside the database file: no marker we are still looking for begins before this position
     # Continue the search as long as we did not find at least one starting marker and one ending marker (or end of file)
-    while (not found and buf):
+    while not found:
         # Read a long block at once, we will readjust the file cursor after
+        file.seek(bufcursor)
         buf = bytearray(file.read(blocksize))
+        searchfrom = 0 # relative position in the current buffer from where to look for the ending marker
         # Find the start marker (if not found already)
-        if start is None or start == -1:
-            start = buf.find(entrymarker); # relative position of the starting marker in the currently read string
-            if start >= 0 and not startcursor: # assign startcursor only if it's empty (meaning that we did not find the starting entrymarker, else if found we are only looking for 
-                startcursor = file.tell() - len(buf) + start # absolute position of the starting marker in the file
-            if start >= 0: start = start + len(entrymarker)
+        if startcursor is None:
+            start = buf.find(entrymarker) # relative position of the starting marker in the currently read string
+            if start >= 0:
+                startcursor = bufcursor + start # absolute position of the starting marker in the file
+                searchfrom = start + len(entrymarker) # the ending marker can only begin after the end of the starting marker
         # If we have a starting marker, we try to find a subsequent marker which will be the ending of our entry (if the entry is corrupted we don't care: it won't pass the entry_to_dict() decoding or subsequent steps of decoding and we will just pass to the next ecc entry). This allows to process any valid entry, no matter if previous ones were scrambled.
-        if startcursor is not None and startcursor >= 0:
-            end = buf.find(entrymarker, start)
-            if end < 0 and len(buf) < blocksize: # Special case: we didn't find any ending marker but we reached the end of file, then we are probably in fact just reading the last entry (thus there's no ending marker for this entry)
-                end = len(buf) # It's ok, we have our entry, the ending marker is just the end of file
-            # If we found an ending marker (or if end of file is reached), then we compute the absolute cursor value and put the file reading cursor back in position, just before the next entry (where the ending marker is if any)
-            if end >= 0:
-                endcursor = file.tell() - len(buf) + end
-                # Make sure we are not redetecting the same marker as the start marker
-                if endcursor > startcursor:
-                    file.seek(endcursor)
-                    found = True
-                else:
-                    end = -1
-                    encursor = None
-        #print("Start:", start, startcursor)
-        #print("End: ", end, endcursor)
+        if startcursor is not None:
+            end = buf.find(entrymarker, searchfrom)
+            if end >= 0: # found the ending marker
+                endcursor = bufcursor + end
+                found = True
+            elif len(buf) < blocksize: # Special case: we didn't find any ending marker but we reached the end of file, then we are probably in fact just reading the last entry (thus there's no ending marker for this entry)
+                endcursor = bufcursor + len(buf) # It's ok, we have our entry, the ending marker is just the end of file
+                found = True
         # Stop criterion to avoid infinite loop: in the case we could not find any entry in the rest of the file and we reached the EOF, we just quit now
-        if len(buf) < blocksize: break
-        # Did not find the full entry in one buffer? Reinit variables for next iteration, but keep in memory startcursor.
-        if start > 0: start = 0 # reset the start position for the end buf find at next iteration (ie: in the arithmetic operations to compute the absolute endcursor position, the start entrymarker won't be accounted because it was discovered in a previous buffer).
-        if not endcursor: file.seek(file.tell()-len(entrymarker)) # Try to fix edge case where blocksize stops the buffer exactly in the middle of the ending entrymarker. The starting marker should always be ok because it should be quite close (or generally immediately after) the previous entry, but the end depends on the end of the current entry (size of the original file), thus the buffer may miss the ending entrymarker. should offset file.seek(-len(entrymarker)) before searching for ending.
+        if found or len(buf) < blocksize: break
+        # Did not find the full entry in one buffer? The next buffer overlaps the end of this one by len(entrymarker)-1 characters, so that a marker cut by the end of this buffer will be entirely inside the next one (and it never begins before the end of the starting marker, so that the starting marker cannot be redetected as the ending marker).
+        bufcursor = max(bufcursor + searchfrom, bufcursor + len(buf) - (len(entrymarker) - 1))
 
     if found: # if an entry was found, we seek to the beginning of the entry and then either read the entry from file or just return the markers positions (aka the entry bounds)
         file.seek(startcursor + len(entrymarker))
